@@ -164,7 +164,7 @@ def restate_loops_if_kernels_take_them(ctx, RID, kernels, what):
         sm = ctx.roles.sample()
         w = sample_world(ctx)
         targets = {w.roles[k].path: k for k in kernels if k in w.roles}
-    except (RoleLost, Undecided, KeyError) as e:
+    except (RoleLost, Undecided, KeyError, AttributeError) as e:
         return ctx.note("%s: conditional loop-count clause skipped — %s; the owning rule reports it" % (RID, e))
     v = Vals(sm)
     hits = []
